@@ -144,11 +144,17 @@ structure St where
   flavor : Flavor
   now : Nat
   listenOnly : Bool
-  canClaim : Bool                   -- IsReadyToSend(): open and a claimant mode (NodeOnly / ListenAndNode)
+  claimMode : Bool                  -- a claimant mode (NodeOnly / ListenAndNode): IsActiveNode()
+  openState : Nat := 3              -- 0 os_None, 1 os_OpenCAN, 2 os_WaitOpen, 3 os_Open
+  openSched : Sched := ⟨0⟩          -- OpenScheduler
+  canOpenOk : Bool := true          -- what the driver's CANOpen() answers
   lists : Lists
   devs : List Dev
   ring : Ring
   drv : Drv
+
+/-- `IsReadyToSend()` (dm_None): open and a claimant mode -/
+def St.canClaim (s : St) : Bool := s.claimMode && s.openState == 3
 
 def fpTxCount (ls : Lists) (d : Dev) : Nat :=
   (Gen.defTransmitMessages.filter (isFastPacketPGN ls)).length + (d.txList.filter (isFastPacketPGN ls)).length
@@ -224,32 +230,47 @@ def srcOf (dev : Option Nat) (d0 : Dev) (m : Msg) : Nat :=
 
 def updDev (devs : List Dev) (i : Nat) (d : Dev) : List Dev := devs.set i d
 
-/-- `SendMsg(N2kMsg, DeviceIndex)` in `dm_None` with the node open. `dev = none` is `DeviceIndex = -1`. -/
-def sendMsg (s : St) (m : Msg) (dev : Option Nat) : St × Bool :=
+/-- outcome of the tests `SendMsg` makes before it produces frames -/
+inductive Gate where
+  | refuse (s : St)                            -- return false (state as left by the tests)
+  | pass (s1 : St) (d1 : Dev) (canId : Nat)    -- go on with device entry `d1` and identifier `canId`
+
+/-- the tests of `SendMsg(N2kMsg, DeviceIndex)` in `dm_None` with the node open, in source order.
+`dev = none` is `DeviceIndex = -1`. -/
+def gate (s : St) (m : Msg) (dev : Option Nat) : Gate :=
   let idx := dev.getD 0
-  if idx ≥ s.devs.length then (s, false) else          -- DeviceIndex>=DeviceCount (and Devices[0] exists)
+  if idx ≥ s.devs.length then .refuse s else          -- DeviceIndex>=DeviceCount (and Devices[0] exists)
   match s.devs[idx]? with
-  | none => (s, false)
+  | none => .refuse s
   | some d0 =>
   let dst := if m.pgn &&& 0xff ≠ 0 then 0xff else m.dst              -- CheckDestination
   let src := srcOf dev d0 m                                            -- ForceSource
-  if src > Gen.maxCanBusAddress ∧ m.pgn ≠ 60928 then (s, false) else
+  if src > Gen.maxCanBusAddress ∧ m.pgn ≠ 60928 then .refuse s else
   let canId := n2kToCanId m.prio m.pgn src dst
-  if canId = 0 then (s, false) else
-  if s.listenOnly then (s, false) else
-  if m.pgn = 0 then (s, false) else
-  let (d1, claiming) := isAddressClaimStarted s.flavor s.now d0
-  let s1 := { s with devs := updDev s.devs idx d1 }
-  if claiming ∧ m.pgn ≠ 60928 then (s1, false) else
-  if m.len ≤ 8 ∧ ¬ (m.prio < 0x80 ∧ isFastPacketPGN s.lists m.pgn) then
-    let (r, dv, ok) := sendFrame s1.ring s1.drv ⟨canId, m.len, m.data.take m.len⟩
-    ({ s1 with ring := r, drv := dv }, ok)
+  if canId = 0 then .refuse s else
+  if s.listenOnly then .refuse s else
+  if m.pgn = 0 then .refuse s else
+  let ic := isAddressClaimStarted s.flavor s.now d0
+  let s1 := { s with devs := updDev s.devs idx ic.1 }
+  if ic.2 ∧ m.pgn ≠ 60928 then .refuse s1 else .pass s1 ic.1 canId
+
+/-- frame production of `SendMsg`: single frame, (ISO-TP: `Model/TP.lean`), or fast packet -/
+def produce (s1 : St) (idx : Nat) (d1 : Dev) (canId : Nat) (m : Msg) : St × Bool :=
+  if m.len ≤ 8 ∧ ¬ (m.prio < 0x80 ∧ isFastPacketPGN s1.lists m.pgn) then
+    let r := sendFrame s1.ring s1.drv ⟨canId, m.len, m.data.take m.len⟩
+    ({ s1 with ring := r.1, drv := r.2.1 }, r.2.2)
   else if m.tp then (s1, false)     -- ISO-TP transfers are modelled in Model/TP.lean (not in this engine)
   else
-    let (d2, sc) := getSequenceCounter s.lists d1 m.pgn
-    let s2 := { s1 with devs := updDev s1.devs idx d2 }
-    let (r, dv, ok) := sendFpLoop canId m (sc <<< 5) (fpFrameCount m.len) 0 s2.ring s2.drv
-    ({ s2 with ring := r, drv := dv }, ok)
+    let g := getSequenceCounter s1.lists d1 m.pgn
+    let s2 := { s1 with devs := updDev s1.devs idx g.1 }
+    let r := sendFpLoop canId m (g.2 <<< 5) (fpFrameCount m.len) 0 s2.ring s2.drv
+    ({ s2 with ring := r.1, drv := r.2.1 }, r.2.2)
+
+/-- `SendMsg(N2kMsg, DeviceIndex)` in `dm_None` with the node open -/
+def sendMsg (s : St) (m : Msg) (dev : Option Nat) : St × Bool :=
+  match gate s m dev with
+  | .refuse s' => (s', false)
+  | .pass s1 d1 canId => produce s1 (dev.getD 0) d1 canId m
 
 /-! ## address claim message -/
 
@@ -277,7 +298,39 @@ def startAddressClaim (s : St) (idx : Nat) : St :=
 `SendFrames()`, then `SendHeartbeat()` evaluates `IsAddressClaimStarted` for every device of an active node -/
 def poll (s : St) : St :=
   let (r, dv, _) := sendFrames s.ring s.drv
-  let devs := if s.canClaim then s.devs.map (fun d => (isAddressClaimStarted s.flavor s.now d).1) else s.devs
+  let devs := if s.claimMode then s.devs.map (fun d => (isAddressClaimStarted s.flavor s.now d).1) else s.devs
   { s with ring := r, drv := dv, devs := devs }
+
+/-! ## opening the CAN interface -/
+
+/-- `StartAddressClaim()` for all devices (devices start with a real address in this model: the
+null-address restart through `GetNextAddress` belongs to the claim model, C03) -/
+def startAddressClaimAll (s : St) : St :=
+  (List.range s.devs.length).foldl startAddressClaim s
+
+/-- `Open()` -/
+def openStep (s : St) : St :=
+  let s := if s.openState = 0 then { s with openState := 1 } else s
+  if s.openState = 1 then
+    if ¬ s.openSched.isTime s.flavor s.now then s
+    else if s.canOpenOk then { s with openState := 2, openSched := Sched.fromNow s.flavor s.now 200 }
+    else { s with openSched := Sched.fromNow s.flavor s.now 1000 }
+  else if s.openState = 2 ∧ s.openSched.isTime s.flavor s.now then
+    startAddressClaimAll { s with openState := 3 }
+  else s
+
+/-- `SendMsg` as the application calls it: tries to open first -/
+def sendMsgTop (s : St) (m : Msg) (dev : Option Nat) : St × Bool :=
+  if s.openState = 3 then sendMsg s m dev
+  else
+    let s' := openStep s
+    if s'.openState = 3 then sendMsg s' m dev else (s', false)
+
+/-- `ParseMessages` as the application calls it (nothing to receive, no information or heartbeat due) -/
+def pollTop (s : St) : St :=
+  if s.openState = 3 then poll s
+  else
+    let s' := openStep s
+    if s'.openState = 3 then poll s' else s'
 
 end N2k.Send
